@@ -87,6 +87,13 @@ CHECKS = {
             '2-3 letters over a 2-letter alphabet (thorough: 1-2 words, 2-4 letters, 3 letters), all strings up to length 5/6 '
             'over {a,b,_,-} for refusal of unsplittable names, 4k/60k random identifiers up to 6 words x 12 letters.',
             'section 7 C20'),
+    'C14': ('TLC-enumerated constructions (class x subset of supplied fields x positional split x constructor x one odd '
+            'value) and data-path cases replayed; instance, set-field record, hook runs, identity of default products recorded '
+            'and validated by the TLC trace spec (PaneClasses.tla ConstructFails, stateful identity set)',
+            'Exhaustive within the class family: every subset of init fields supplied, by keyword and by every admissible '
+            'positional prefix, through Cls(...) and make_unchecked, plus mapping/sequence data paths; TLC decides signature '
+            'binding, per-argument conversion as from_data, defaults, fresh unshared factory products, exact set-record, '
+            'verbatim storage, one hook run per instance, hook failure class per path.', 'section 7 C14'),
 }
 
 NOT_YET = 'check not built yet (work in progress; see DESIGN.md section 12 build order)'
